@@ -1,13 +1,18 @@
 (* CorrC06.v — struct -> Config -> struct is the identity (nil and empty collections equal). *)
 From Ucfg Require Export CorrC04.
 
+(* a chain of pointers ending in nil holds no value: it is nil *)
+Fixpoint chain_nil (v : gv) : bool :=
+  match v with GPtrNil => true | GPtr x => chain_nil x | _ => false end.
+
 Fixpoint gv_equiv (a b : gv) {struct a} : bool :=
   match a, b with
   | GP x, GP y => cval_eqb x y
   | GIfaceNil, GIfaceNil | GPtrNil, GPtrNil | GCfgNil, GCfgNil => true
   | GIfaceData x, GIfaceData y => otree_eqb x y
-  | GPtr GPtrNil, GPtrNil | GPtrNil, GPtr GPtrNil => true      (* a pointer to a nil pointer is nil *)
-  | GPtr x, GPtr y => gv_equiv x y
+  | GPtr x, GPtrNil => chain_nil x
+  | GPtrNil, GPtr y => chain_nil y
+  | GPtr x, GPtr y => (chain_nil x && chain_nil y) || gv_equiv x y
   | (GSliceNil | GSlice []), (GSliceNil | GSlice []) => true
   | (GMapNil | GMapV []), (GMapNil | GMapV []) => true
   | GSlice l1, GSlice l2 | GArr l1, GArr l2 | GStructV l1, GStructV l2 =>
@@ -62,7 +67,7 @@ Fixpoint gv_equiv_t (t : ty) (a b : gv) {struct t} : bool :=
 Fixpoint nil_ptr_elem (in_elem : bool) (v : gv) : bool :=
   match v with
   | GPtrNil => in_elem
-  | GPtr x => nil_ptr_elem false x
+  | GPtr x => nil_ptr_elem in_elem x      (* a chain of pointers inside an element ending in nil *)
   | GSlice l | GArr l => existsb (nil_ptr_elem true) l
   | GStructV l => existsb (nil_ptr_elem false) l
   | GMapV m => existsb (fun kv => nil_ptr_elem true (snd kv)) m
